@@ -37,6 +37,8 @@ static Op mk(int kind, uint32_t dt, std::initializer_list<int64_t> a) {
 }
 static uint16_t rnd_gen(Rng &r) { return r.chance(0.4) ? (uint16_t)r.pickl({0, 1, 0xFF, 0x100, 0x7FFF, 0x8000, 0xFFFF, 0x1234, 0x3412}) : (uint16_t)r.next(); }
 static uint16_t rnd_seq(Rng &r) { return r.chance(0.5) ? (uint16_t)r.pickl({1, 2, 0xFF, 0x100, 0xFFFF, 0x8000}) : (uint16_t)r.range(1, 0xFFFF); }
+// time differences around the widths a narrowed type would wrap at (seconds or milliseconds)
+static int64_t big_jump(Rng &r) { static const int K[] = {15, 16, 31, 32}; int64_t b = (int64_t)1 << K[r.below(4)]; return b * r.range(1, 2) + r.range(-2, 2); }
 static uint32_t rnd_dt(Rng &r) { return r.chance(0.7) ? (uint32_t)r.range(0, 40) : (uint32_t)r.range(0, 1200); }
 static int rnd_bridge(Rng &r, int sid) { return r.chance(0.25) ? (sid + 1 + (int)r.below(3)) % 6 : -1; }
 
@@ -443,12 +445,36 @@ static Plan gen_C10(uint64_t seed, Rng &r) {
     return p;
 }
 
+// A long-lived mapping session of the documented flow: frames every 0.8-4.8 s (the Command state times out after 5 s of silence),
+// several mappers of which some fall silent, so that single sessions pass their 60 s expiry while the table as a whole stays in use.
+static void keepalive_ops(Rng &r, Plan &p, int node_count) {
+    int nm = (int)r.range(2, 3);
+    uint16_t gen[3]; int64_t xid[3];
+    for (int m = 0; m < nm; m++) { gen[m] = rnd_gen(r); xid[m] = rnd_seq(r); }
+    int silent = (int)r.below((uint64_t)nm);          // this mapper stops talking after its first Discover
+    int n = (int)r.range(14, 45);
+    for (int m = 0; m < nm; m++) { Op o = mk(OP_DISCOVER, (uint32_t)r.range(5, 900), {m, -1, 0, gen[m], xid[m], 1, r.range(0, 3), r.chance(0.5) ? -1 : 0}); o.blob = {(uint8_t)r.below((uint64_t)node_count)}; p.ops.push_back(o); }
+    for (int i = 0; i < n; i++) {
+        uint32_t dt = (uint32_t)r.range(800, 4800);
+        int m = (int)r.below((uint64_t)nm);
+        if (m == silent && r.chance(0.9)) m = (m + 1) % nm;
+        int x = (int)r.below(10);
+        if (x < 6) { if (r.chance(0.3)) xid[m] = r.chance(0.1) ? 0 : (int64_t)rnd_seq(r); Op o = mk(OP_DISCOVER, dt, {m, -1, 0, gen[m], xid[m], 1, r.range(0, 3), r.chance(0.6) ? -1 : 0}); o.blob = {(uint8_t)r.below((uint64_t)node_count)}; p.ops.push_back(o); }
+        else if (x < 8) p.ops.push_back(mk(OP_HELLO, dt, {5, rnd_gen(r), 0, 1, 0, 0}));
+        else if (x < 9) p.ops.push_back(mk(OP_QUERY, dt, {m, -1, 0, rnd_seq(r), 0}));
+        else p.ops.push_back(mk(OP_RESET, dt, {m, -1, r.chance(0.8) ? 0 : 1, r.chance(0.5) ? 1 : 0, 0, 0}));
+    }
+    // afterwards everybody shows up again, with old and new transaction ids
+    for (int m = 0; m < nm; m++) { if (r.chance(0.5)) xid[m] = rnd_seq(r); Op o = mk(OP_DISCOVER, (uint32_t)r.range(100, 4000), {m, -1, 0, gen[m], xid[m], 1, r.range(0, 3), r.chance(0.5) ? -1 : 0}); o.blob = {0}; p.ops.push_back(o); }
+}
+
 static Plan gen_C11(uint64_t seed, Rng &r) {
     Plan p = base_plan("C11", seed, r);
     NodeCfg n = rnd_node(r, {GLUE_DARWIN});
     if (r.chance(0.6)) n.mtu = (uint32_t)r.pickl({1500, 1500, 4096, 9216});
     p.nodes.push_back(n);
     if (r.chance(0.2)) p.nodes.push_back(rnd_node(r, {GLUE_DARWIN}));
+    if (r.chance(0.25)) { p.family = 1; keepalive_ops(r, p, (int)p.nodes.size()); p.tail_ms = (uint32_t)r.range(500, 3000); return p; }
     int mapper = (int)r.below(3);
     uint16_t gen = rnd_gen(r);
     int64_t xid = rnd_seq(r);
@@ -492,6 +518,7 @@ static Plan gen_C12(uint64_t seed, Rng &r) {
         for (int i = 0; i < nn; i++) p.nodes.push_back(rnd_node(r, {GLUE_DARWIN}));
         int mapper = 0;
         int nops = (int)r.range(3, 30);
+        if (r.chance(0.3)) { keepalive_ops(r, p, nn); nops = (int)r.range(0, 6); }
         for (int i = 0; i < nops; i++) {
             int x = (int)r.below(20);
             uint32_t dt = r.chance(0.5) ? (uint32_t)r.range(0, 300) : (r.chance(0.7) ? (uint32_t)r.range(300, 5000) : (uint32_t)r.range(5000, 70000));
@@ -501,7 +528,7 @@ static Plan gen_C12(uint64_t seed, Rng &r) {
                 p.ops.push_back(o);
             } else if (x < 10) p.ops.push_back(mk(OP_RESET, dt, {mapper, -1, r.chance(0.8) ? 0 : 1, r.chance(0.3) ? 1 : 0, 0, 0}));
             else if (x < 13) p.ops.push_back(mk(OP_HELLO, dt, {(int64_t)r.range(4, 7), rnd_gen(r), 0, r.chance(0.5) ? 1 : r.range(2, 60), r.chance(0.5) ? 0 : r.range(1, 400), 0}));
-            else if (x < 15) p.ops.push_back(mk(OP_STALL, dt, {r.chance(0.5) ? 0 : -1, r.chance(0.6) ? r.range(50, 3000) : r.range(3000, 120000)}));
+            else if (x < 15) p.ops.push_back(mk(OP_STALL, dt, {r.chance(0.5) ? 0 : -1, r.chance(0.6) ? r.range(50, 3000) : (r.chance(0.9) ? r.range(3000, 120000) : big_jump(r) * (r.chance(0.5) ? 1 : 1000))}));
             else if (x < 16) p.ops.push_back(mk(OP_PARTITION, dt, {-1, r.chance(0.5) ? r.range(1000, 40000) : r.range(40000, 120000)}));
             else if (x < 17) p.ops.push_back(mk(OP_TICK, dt, {0}));
             else if (x < 18) { if (r.chance(0.5)) mapper = (int)r.below(3); p.ops.push_back(mk(OP_QUERY, dt, {mapper, -1, 0, rnd_seq(r), 0})); }
@@ -517,7 +544,7 @@ static Plan gen_C12(uint64_t seed, Rng &r) {
         for (int i = 0; i < nops; i++) {
             int x = (int)r.below(30);
             if (x < 9) p.ops.push_back(mk(OP_A_TICK, 0, {}));
-            else if (x < 16) p.ops.push_back(mk(OP_A_ADV, 0, {r.chance(0.5) ? r.range(0, 150) : (r.chance(0.6) ? r.range(150, 2500) : r.range(2500, 120000))}));
+            else if (x < 16) p.ops.push_back(mk(OP_A_ADV, 0, {r.chance(0.5) ? r.range(0, 150) : (r.chance(0.6) ? r.range(150, 2500) : (r.chance(0.93) ? r.range(2500, 120000) : big_jump(r) * (r.chance(0.5) ? 1 : 1000)))}));
             else if (x < 19) p.ops.push_back(mk(OP_A_TADD, 0, {(int64_t)r.below((uint64_t)nkeys), rnd_seq(r)}));
             else if (x < 21) p.ops.push_back(mk(OP_A_TCOMPL, 0, {(int64_t)r.below((uint64_t)nkeys), (int64_t)r.below(2)}));
             else if (x < 22) p.ops.push_back(mk(OP_A_TREM, 0, {(int64_t)r.below((uint64_t)nkeys)}));
@@ -614,8 +641,8 @@ static Plan gen_C14(uint64_t seed, Rng &r, uint64_t index) {
         else if (x < 16) p.ops.push_back(mk(OP_A_TICK, 0, {}));
         else if (x < 17) p.ops.push_back(mk(OP_A_INACT, 0, {}));
         else if (x < 18) p.ops.push_back(mk(OP_A_TADD, 0, {(int64_t)r.below(4), rnd_seq(r)}));
-        else if (x < 19) p.ops.push_back(mk(OP_A_CHARGE, 0, {}));
-        else p.ops.push_back(mk(OP_A_ADV, 0, {r.range(0, 2500)}));
+        else if (x < 19) p.ops.push_back(r.chance(0.8) ? mk(OP_A_CHARGE, 0, {}) : mk(OP_A_SETMAP, 0, {(int64_t)r.below(3), r.chance(0.5) ? r.pickl({0, 4, 5, 6, 29, 30, 31}) : big_jump(r)}));
+        else p.ops.push_back(mk(OP_A_ADV, 0, {r.chance(0.8) ? r.range(0, 2500) : 1000 * big_jump(r)}));
     }
     return p;
 }
@@ -636,8 +663,8 @@ static Plan gen_C15(uint64_t seed, Rng &r, uint64_t index) {
     for (int i = 0; i < nops; i++) {
         int x = (int)r.below(10);
         if (x < 6) p.ops.push_back(mk(OP_A_SESS, 0, {(int64_t)r.below(8)}));
-        else if (x < 9) p.ops.push_back(mk(OP_A_ADV, 0, {1000 * r.pickl({0, 0, 1, 1, 2, 3, 10})}));
-        else p.ops.push_back(mk(OP_A_SETSESS, 0, {(int64_t)r.below(4), r.pickl({0, 1, 2, 10})}));
+        else if (x < 9) p.ops.push_back(mk(OP_A_ADV, 0, {r.chance(0.9) ? 1000 * r.pickl({0, 0, 1, 1, 2, 3, 10}) : 1000 * big_jump(r)}));
+        else p.ops.push_back(mk(OP_A_SETSESS, 0, {(int64_t)r.below(4), r.chance(0.9) ? r.pickl({0, 1, 2, 10}) : big_jump(r)}));
     }
     return p;
 }
@@ -659,7 +686,7 @@ static Plan gen_C16(uint64_t seed, Rng &r) {
         else if (x < addw + 0.24) p.ops.push_back(mk(OP_A_TCLR, 0, {}));
         else if (x < addw + 0.32) p.ops.push_back(mk(OP_A_TCOMPL, 0, {k, (int64_t)r.below(2)}));
         else if (x < addw + 0.40) p.ops.push_back(mk(OP_A_TICK, 0, {}));
-        else p.ops.push_back(mk(OP_A_ADV, 0, {r.chance(0.5) ? r.range(0, 5000) : (r.chance(0.6) ? 1000 * r.pickl({59, 60, 61, 30, 120}) : r.range(0, 200000))}));
+        else p.ops.push_back(mk(OP_A_ADV, 0, {r.chance(0.5) ? r.range(0, 5000) : (r.chance(0.6) ? 1000 * r.pickl({59, 60, 61, 30, 120}) : (r.chance(0.9) ? r.range(0, 200000) : 1000 * big_jump(r)))}));
     }
     return p;
 }
@@ -691,6 +718,7 @@ static Plan gen_C17(uint64_t seed, Rng &r) {
         case OP_HELLO: o.a[5] = node + 1; if (o.a[3] > 1) o.a[4] = 0; break;
         default: break;
         }
+        if (o.kind == OP_FLOOD && r.chance(0.15)) { o.a[0] = r.range(1000, 1100); o.a[1] = 20000 + 2000 * node; } // enough observations on one interface to reach any process-wide limit
         if (i < 2 && r.chance(0.5)) o.dt = 0; // first frames back to back
         o.only = node; // every frame of this op reaches `node` only
         p.ops.push_back(o);
